@@ -79,10 +79,20 @@ class Histories(Suite):
             out += list(G.exhaustive(ALPHA, 4, [1024], IDS))
             n = 300000 if budget == "thorough" else 60000
         rng = ctx.sub_rng("c01", budget)
-        alpha = ALPHA + ["Rj", "R0", "R0", "Rx", "Ed", "E0", "F", "Gp", "Oe"]
+        alpha = ALPHA + ["Rj", "R0", "R0", "Rx", "Ed", "E0", "F", "Gp", "Oe", "Ez"]
         out += list(G.exhaustive(["R0", "N", "Q"], 2, [1024], IDS))
         for _ in range(n):
             out.append(G.seeded(rng, alpha, cancel_p=0.08))
+        # the read side of the connection ENDS while the request is pending (transport shut down,
+        # peer gone), no response bearing the id ever having arrived: the call must not return
+        for i in range(300 if budget == "quick" else 6000):
+            c = G.seeded(rng, ["N", "O", "Q", "G", "F", "Oe", "T", "B"], max_len=6, cancel_p=0.0)
+            c["ev"] = [[a, e] for a, e in c["ev"] if not ("$ID" in repr(e) and e["k"] in ("resp", "err", "batch"))]
+            for key in ("pre", "hasToken", "writer"):
+                c.pop(key, None)
+            last = max([a for a, _ in c["ev"]] + [0])
+            c["eos"] = rng.choice([last, last + 1, last + rng.randint(0, P_ := 512), max(last, c["D"] - 1)])
+            out.append(c)
         ctx.exhaustive_parts.append("histories: every word over the 8-symbol alphabet up to the stated length x 8 time patterns")
         return out
 
@@ -97,6 +107,8 @@ class Histories(Suite):
     def model_line(self, case, o=None):
         if o is None or o.get("harness_errors"):
             return None
+        if case.get("eos") is not None:
+            return None  # end of stream is outside the model's (and the property's) histories: oracle only
         return H.model_line(case, o)
 
     def model_obs(self, out, case):
@@ -135,6 +147,14 @@ class Histories(Suite):
             _, a, ev = fm
             if ev["k"] != "resp" or o.get("p") != ev["p"]:
                 return ("returned-not-first-response", f"returned {o.get('p')!r}; first matching message is {ev}", {"p": ev.get("p")})
+        if case.get("eos") is not None:
+            # the stream ended at tick `eos` and nothing bearing the id ever arrived: whatever the
+            # call does, it must not complete normally, and it must be over by its deadline
+            if o["outcome"] == "returned":
+                return ("returned-without-response", f"read stream ended at tick {case['eos']} with no response for id {sent!r}; the call returned {o.get('p')!r}", {"outcome": "not returned"})
+            if o["outcome"] == "hung" or o["t"] > case["D"]:
+                return ("never-completes", f"read stream ended at tick {case['eos']}; still running {o['t']} ticks after the start, timeout {case['D']}", None)
+            return None
         if o["outcome"] == "exception":
             return ("unexpected-exception", f"{o.get('exc')}: {o.get('text')}", None)
         if o["outcome"] == "hung":
@@ -187,6 +207,27 @@ class Siblings(Suite):
                 reqs.append(G.place(c))
             out.append({"mode": rng.choice(["seq", "par"]), "tie": rng.choice(["events", "timers", "io"]), "fire": None,
                         "gaps": [rng.choice([0, 1, 600]) for _ in range(n)], "reqs": reqs, "noToken": True})
+        # ONE connection used for 2-4 consecutive requests (a retry after an error, the next call of a
+        # session), ids reused or not; each request's history ends with its own answer, so nothing is
+        # left over for the next one
+        for _ in range(700 if budget == "quick" else 30000):
+            n = rng.choice([2, 2, 3, 4])
+            same = rng.random() < 0.7
+            ids = [rng.choice(pool)] * n if same else [rng.choice(pool) for _ in range(n)]
+            reqs = []
+            for j in range(n):
+                c = G.seeded(rng, ["N", "O", "Q", "Oe", "F", "G"], max_len=3, ids=[ids[j]], progress_p=0.0)
+                for key in ("cancelAt", "pre", "hasToken", "cbRaises", "tie", "writer", "eos"):
+                    c.pop(key, None)
+                c["D"] = max(c["D"], 64)
+                c["ev"] = [[min(a, c["D"] - 2), e] for a, e in c["ev"]]
+                c["ev"].sort(key=lambda x: x[0])
+                last = max([a for a, _ in c["ev"]] + [0])
+                final = G.sym_event(rng.choice(["R", "R", "E", "Ed", "R0"]), k=rng.randint(0, 9))
+                c["ev"].append([min(c["D"] - 1, last + rng.choice([0, 1, 7])), final])
+                reqs.append(G.place(c))
+            out.append({"mode": "seq", "tie": rng.choice(["events", "timers", "io"]), "fire": None, "sharedStreams": True,
+                        "gaps": [rng.choice([0, 1, 600]) for _ in range(n)], "reqs": reqs, "noToken": True})
         return out
 
     def impl_batch(self, cases):
@@ -206,7 +247,7 @@ class Siblings(Suite):
 
     def kind(self, case, o):
         ids = [repr(r.get("id")) for r in case["reqs"]]
-        return f"siblings/{case['mode']}/{len(o)}/{'same-id' if len(set(ids)) == 1 else 'mixed'}/" + "+".join(x["outcome"] for x in o)
+        return f"siblings/{'one-connection' if case.get('sharedStreams') else case['mode']}/{len(o)}/{'same-id' if len(set(ids)) == 1 else 'mixed'}/" + "+".join(x["outcome"] for x in o)
 
     def nontrivial(self, case, o):
         return True
